@@ -25,6 +25,7 @@ type history struct {
 	Profile  statekit.Profile     `json:"profile"`
 	Era      string               `json:"era"`
 	Several  bool                 `json:"several_txs_per_proposal_and_block"`
+	Drain    bool                 `json:"drain_mode"`
 	Blocks   []statekit.BlockInfo `json:"blocks"`
 	Rejected []string             `json:"rejected,omitempty"`
 	Notes    []string             `json:"notes,omitempty"`
@@ -71,6 +72,12 @@ func TestProposalBudgets(t *testing.T) {
 			statekit.SetC29SeveralPerProposal(g, true)
 			defer statekit.SetC29SeveralPerProposal(g, false)
 		}
+		drain := rapid.IntRange(0, 3).Draw(t, "drainmode") == 0
+		hist.Drain = drain
+		if drain {
+			statekit.SetC29Drain(g, true)
+			defer statekit.SetC29Drain(g, false)
+		}
 		full := statekit.C28FullSanity()
 		for kk := range statekit.C29FullSanity() {
 			full[kk] = true
@@ -109,7 +116,11 @@ func TestProposalBudgets(t *testing.T) {
 			}
 			h := k.Height + 1
 			events = nil
-			tune(g, base, prof, h)
+			tune(g, base, prof, h, drain)
+			opts.MinTxs = 0
+			if k.Committee.IsInElectionPeriod() {
+				opts.MinTxs = 2
+			}
 			m.observeBefore()
 			for _, mb := range k.Committee.GetCurrentMembers() {
 				if mb.MemberState == crstate.MemberElected && k.Committee.IsInElectionPeriod() {
@@ -130,6 +141,9 @@ func TestProposalBudgets(t *testing.T) {
 				if ev.Err != nil {
 					if ev.Kind == "withdraw" {
 						rejectedWithdraws++
+						if os.Getenv("C29_DEBUG") != "" {
+							fmt.Println("WDREJ", ev.Err, "|", ev.Desc)
+						}
 					}
 					if len(hist.Rejected) < 40 && (ev.Kind == "withdraw" || ev.Kind == "proposal" || ev.Kind == "tracking") {
 						hist.Rejected = append(hist.Rejected, fmt.Sprintf("%d %s: %v", h, ev.Desc, ev.Err))
@@ -251,7 +265,7 @@ func TestProposalBudgets(t *testing.T) {
 // tune moves the kind weights towards what a proposal history needs: members
 // that claim their nodes (only elected members may sponsor or review), then
 // proposals, reviews, tracking and withdrawals.
-func tune(g *statekit.Gen, base map[string]int, prof statekit.Profile, h uint32) {
+func tune(g *statekit.Gen, base map[string]int, prof statekit.Profile, h uint32, drain bool) {
 	for kk, v := range base {
 		g.Kinds[kk] = v
 	}
@@ -287,10 +301,13 @@ func tune(g *statekit.Gen, base map[string]int, prof statekit.Profile, h uint32)
 			}
 		}
 		g.Kinds["proposal"] = base["proposal"] * 4
-		if registered+agreed >= 3 {
+		if registered+agreed >= 3 && !drain {
 			g.Kinds["proposal"] = base["proposal"]
 		}
-		g.Kinds["review"] = base["review"] * (1 + 4*minInt(registered, 3))
+		if drain {
+			g.Kinds["proposal"] = base["proposal"] * 8
+		}
+		g.Kinds["review"] = base["review"] * (1 + 10*minInt(registered, 3))
 		g.Kinds["tracking"] = base["tracking"] * (1 + 3*minInt(agreed, 2))
 		g.Kinds["withdraw"] = base["withdraw"] * (1 + 3*minInt(payable+agreed, 3))
 	}
